@@ -22,7 +22,7 @@ func init() {
 		Explanation: "D1 every effect of NewEpoch is preceded by epochNum > stored epoch (and the Alphabet witness, C03); the epoch key is written with Param(epochNum) and has no other writer except the fresh deploy. D2 NewEpoch writes neither candidate family. " +
 			"D3 publication: 'snapshot_'‖id receives the list built from the scan of 'candidate' filtered by State != Offline, 'p'‖BE4(epochNum)‖key → value for every item of the scan of '2', snapshotBlock = current height, exactly one NewEpoch(epochNum) notification on every path. " +
 			"D4 fan-out: one contract.Call(hash, \"newEpoch\", All, epochNum) per item of the forward scan of 'e' (hash = key without the index byte), loop left only on exhaustion, no exception-catching frame; subscription keys are 'e'‖byte(index)‖hash so scan order is subscription order. " +
-			"D5 SubscribeForNewEpoch writes only after the candidate contract was compared with every stored subscriber and found different (membership loop dominates the write), the index is the number of stored entries. M: the contract's own code faults only without the Alphabet witness or with epochNum ≤ the stored epoch (converse of the epoch guard); snapshot loader.",
+			"D5 SubscribeForNewEpoch writes only after the candidate contract was compared with every stored subscriber and found different (membership loop dominates the write), the index is the number of stored entries. M: the contract's own code faults only without the Alphabet witness or with epochNum ≤ the stored epoch (converse of the epoch guard); snapshot loader. R8: a fixed-width key encoder reverses the padded buffer, not the variable-length source (otherwise 1, 256, 65536 share a key).",
 		NotCovered: "equality of the published maps with a model after arbitrary histories; behaviour of subscribers.",
 		Run:        runC06,
 	})
